@@ -98,10 +98,10 @@ def calm_field(P):
 def solver_history(case):
     """what the solver object did BEFORE the computation under test - a pure function of the case (replayable): 0 nothing (half of the cases), 1 one
     iteration with the per-cell time-step directive and another CFL number, 2 two iterations of a much slower problem (large time steps), 3 a short
-    computation with save times and a monitor"""
+    computation with save times and a monitor, 4 one iteration from the same data in reverse cell order"""
     import zlib
     from vf.runner import canonical
-    return [0, 0, 0, 1, 2, 3][zlib.crc32(canonical(case).encode()) % 6]
+    return [0, 0, 0, 1, 2, 3, 4][zlib.crc32(canonical(case).encode()) % 7]
 
 
 def preuse_solver(P, solver, case, cfl, variant=None):
@@ -120,6 +120,12 @@ def preuse_solver(P, solver, case, cfl, variant=None):
             if np.isfinite(dt) and dt > 0:
                 # (iteration limit: flowdyn's solve() never returns once a time step is NaN, e.g. after an unstable step of this preliminary run)
                 solver.solve(f, 0.7 * cfl, [f.time + 0.4 * dt, f.time + 1.7 * dt], stop={"maxit": 8}, monitors={"residual": {"frequency": 1}})
+        elif v == 4:
+            # one iteration from the same data in reverse cell order (same time, same iteration number, same integrals - another state)
+            g = P.field.copy()
+            for d in g.data:
+                d[...] = d[..., ::-1].copy()
+            solver.solve(g, cfl, stop={"maxit": 1})
         else:
             return 0
     except (np.linalg.LinAlgError, FloatingPointError, ValueError, ZeroDivisionError):
